@@ -12,6 +12,7 @@ package harness
 //   2011 monitor: directory listing (contents, modes) after concurrent writers, some of them killed at random instants  -> dir_ok / quiet_ok
 
 import (
+	"bytes"
 	"fmt"
 	"math/rand"
 	"os"
@@ -30,7 +31,7 @@ import (
 const (
 	c20Strace = "/usr/bin/strace"
 	c20Chroot = "/usr/sbin/chroot"
-	c20Trace  = "trace=execve,openat,?open,?creat,write,close,fchmodat,?fchmodat2,?chmod,fchmod,renameat,?renameat2,?rename,unlinkat,?unlink,?link,linkat,truncate,ftruncate"
+	c20Trace  = "trace=execve,openat,?open,?creat,write,close,fchmodat,?fchmodat2,?chmod,fchmod,renameat,?renameat2,?rename,unlinkat,?unlink,?link,linkat,truncate,ftruncate,fsync,fdatasync,?sync_file_range,?syncfs"
 )
 
 type c20File struct {
@@ -284,6 +285,8 @@ type c20Scenario struct {
 	calls   []*c20Call
 	final   []c20File
 	note    string // non-empty: the run could not be carried out as planned (not a verdict)
+	late    string     // "name:when": a fault injected into this call, which comes after the rename (see c20Late)
+	all     []*c20Call // every traced call of the run
 }
 
 // position of a step in the model's schedule (its j-th step) given the faults before it
@@ -368,6 +371,10 @@ func (sc *c20Scenario) run(root string, ords c20Ordinals) {
 		}
 		inject = append(inject, fmt.Sprintf("%s:error=%s:when=%s", o[0], sc.errno, o[1]))
 	}
+	if sc.late != "" {
+		nw := strings.SplitN(sc.late, ":", 2)
+		inject = append(inject, fmt.Sprintf("%s:error=%s:when=%s", nw[0], sc.errno, nw[1]))
+	}
 	if sc.killAt >= 0 {
 		o, ok := ords[sc.killAt]
 		if !ok {
@@ -394,7 +401,7 @@ func (sc *c20Scenario) run(root string, ords c20Ordinals) {
 	}
 	os.Remove(tf)
 	var started bool
-	sc.calls, started, _ = c20ParseTrace(string(raw))
+	sc.calls, started, sc.all = c20ParseTrace(string(raw))
 	if !started {
 		sc.note = "the binary was not started: " + string(raw[:min(len(raw), 300)])
 		return
@@ -421,7 +428,7 @@ func (sc *c20Scenario) run(root string, ords c20Ordinals) {
 			ninj++
 		}
 	}
-	if ninj != len(sc.faults) {
+	if ninj != len(sc.faults) && sc.late == "" {
 		sc.note = "retry: injected calls differ from the plan"
 	}
 	if sc.killAt >= 0 && sc.outcome != 2 {
@@ -452,6 +459,37 @@ func c20Reference(root string, envp []string) (c20Ordinals, string) {
 		}
 	}
 	return ords, ""
+}
+
+// c20Late lists ("name:when") the calls of an undisturbed run that touch the file system after the rename succeeded: a
+// synchronisation of a file or directory, another open / chmod / rename / unlink under etc/ or of etc/ itself.  The program as it
+// stands makes none; a version that does has made the new file visible before them, and a fault there must not be reported as a
+// failed update ("an update that fails leaves the previous file in place").
+func c20Late(root string, envp []string, init []c20File) []string {
+	sc := &c20Scenario{envp: envp, init: init, killAt: -1}
+	sc.run(root, c20Ordinals{})
+	if sc.note != "" {
+		return nil
+	}
+	var out []string
+	renamed := false
+	for _, c := range sc.all {
+		if !renamed {
+			renamed = (c.name == "renameat" || c.name == "renameat2" || c.name == "rename") && strings.Contains(c.args, "/etc/") && !strings.HasPrefix(c.ret, "-1")
+			continue
+		}
+		switch c.name {
+		case "fsync", "fdatasync", "sync_file_range", "syncfs":
+		case "openat", "open", "creat", "fchmodat", "fchmodat2", "chmod", "renameat", "renameat2", "rename", "unlinkat", "unlink":
+			if !strings.Contains(c.args, "\"/etc") {
+				continue
+			}
+		default:
+			continue
+		}
+		out = append(out, c.name+":"+strconv.Itoa(c.ord))
+	}
+	return out
 }
 
 func (sc *c20Scenario) emit(c *caseWriter) {
@@ -815,6 +853,29 @@ func TestC20(t *testing.T) {
 			continue
 		}
 		sc.emit(c)
+	}
+
+	// ---- (ii') a fault in a call that comes after the rename (none in the program as it stands) ----
+	{
+		env := c20Env(r, 2, false)
+		init, _ := c20Init(r, 1)
+		lateRuns := 0
+		for _, lc := range c20Late(roots[0], env, init) {
+			for _, errno := range []string{"EIO", "EACCES"} {
+				sc := &c20Scenario{kind: "fault-after-rename", envp: env, init: init, killAt: -1, errno: errno, late: lc}
+				sc.run(roots[0], c20Ordinals{})
+				if sc.note != "" || sc.outcome != 1 {
+					continue
+				}
+				lateRuns++
+				for _, f := range sc.final {
+					if f.name == "resolv.conf" && !bytes.Equal(f.data, init[0].data) {
+						vl.add("failed-update-replaced-file", "the hook exits with an error (%s injected into %s, a call after the rename) although etc/resolv.conf has been replaced: an update that fails leaves the previous file in place; file now: %q", errno, lc, f.data)
+					}
+				}
+			}
+		}
+		t.Logf("faults after the rename: %d runs", lateRuns)
 	}
 
 	// ---- (iii) concurrent writers and readers ----
